@@ -112,7 +112,7 @@ type c20r struct { // reader class
 	err           string
 	lit           *ast.FuncLit
 	size          ast.Expr
-	signed, minus bool // ascii: parsed as signed / condition accepts '-'
+	signed, minus bool       // ascii: parsed as signed / condition accepts '-'
 	stores        []ast.Expr // right-hand sides stored to *dst by the parser
 	parseBits     int64      // bitSize argument of strconv.ParseUint/ParseInt
 }
